@@ -27,8 +27,8 @@ structure Cfg (W : Type) where
   /-- number of times the coroutine call `e`, entered in world `w` with these argument values,
   suspends before completing -/
   nsusp : Ex → W → List Nat → Nat
-  /-- `x op= v` -/
-  comb : Nat → Nat → Nat
+  /-- `x op= v`, for the assignment whose right-hand side is the occurrence `e` -/
+  comb : Ex → Nat → Nat → Nat
 
 abbrev Store := Nat → Nat
 
@@ -88,7 +88,7 @@ def evalAssign (R : Nat → Bool) (cfg : Cfg W) (op : AOp) (lhs : Lhs) (rhs : Ex
   | Lhs.expr e => let r2 := evalEx R cfg e r1.2.1; (r2.2.1, r1.2.2 ++ r2.2.2)
   | Lhs.var i =>
     if op ≠ AOp.eq ∧ op ≠ AOp.eqQuestion then
-      let nv := cfg.comb (r1.2.1.store i) r1.1
+      let nv := cfg.comb rhs (r1.2.1.store i) r1.1
       ({ r1.2.1 with store := setStore r1.2.1.store i nv }, r1.2.2 ++ ([Ev.rd i] ++ [Ev.wr i]))
     else
       ({ r1.2.1 with store := setStore r1.2.1.store i r1.1 }, r1.2.2 ++ ([] ++ [Ev.wr i]))
